@@ -13,6 +13,8 @@
                       does not change afterwards
     no early timeout  NNG_ETIMEDOUT is reported only when the configured duration has passed
                       since the operation was started; a sleep does not end early
+    cancel codes      a cancel / abort / stop code is reported only for an operation during whose
+                      lifetime that cancel / abort / stop was issued
     quiescence        when nng_aio_stop returns no callback is running, every operation whose
                       start had returned before the stop has reported, later callbacks carry
                       NNG_ESTOPPED; after nng_aio_free returns nothing happens on the aio
@@ -22,6 +24,7 @@ namespace Nng.AioSpec
 
 def ETIMEDOUT : Nat := Nng.Generated.aioEtimedout
 def ESTOPPED : Nat := Nng.Generated.aioEstopped
+def ECANCELED : Nat := Nng.Generated.aioEcanceled
 
 /-- the timeout configured on the aio -/
 inductive Tmo | zero | never | ms (d : Nat)
@@ -38,7 +41,8 @@ inductive Obs
   | subCall (k : Kind) | subRet (v : Nat)
   | provDone (rv : Nat) (won : Bool)      -- provider completion test-and-remove
   | cancelRan (rv : Nat) (won : Bool)     -- the cancel function ran (test-and-remove)
-  | abortCall (rv : Nat) | closeCall
+  | abortCall (rv : Nat) | abortRet | closeCall
+  | auxBad                                -- an auxiliary aio of the harness saw a callback without an operation, or none
   | cbBegin (r : Nat) | cbEnd
   | peek (r : Nat)                        -- `nng_aio_result` read while no operation is pending
   | stopCall | stopRet | freeCall | freeRet
@@ -56,6 +60,7 @@ structure Op where
   retBeforeStop : Bool := false
   reported : Bool := false
   userTimeout : Bool := false   -- the user itself passed ETIMEDOUT to abort
+  aborts : List Nat := []       -- codes of the aborts that were in flight at, or called after, the start
 deriving Repr, Inhabited
 
 structure J where
@@ -67,6 +72,8 @@ structure J where
   openCb : Nat := 0
   lastCb : Option Nat := none
   skipArmed : Bool := false
+  openAborts : Nat := 0         -- nng_aio_abort calls that have not returned
+  openCodes : List Nat := []    -- their codes (kept while any of them is still in flight)
   stopCalled : Bool := false
   stopReturned : Bool := false
   freeReturned : Bool := false
@@ -97,6 +104,16 @@ def timeoutDue (o : Op) (now : Nat) : Bool :=
     | .never => false
     | .ms d => decide (o.tsub + d ≤ now)
 
+/-- may a completion that nobody decided by a test-and-remove (start refused, sleep, real provider)
+    legitimately carry `r`?  A cancel/abort/stop code needs a cancel/abort/stop issued during the
+    operation's lifetime (timeouts are judged by their own clause). -/
+def unprovoked (o : Op) (r : Nat) (stopCalled : Bool) : Bool :=
+  match o.kind with
+  | .direct _ => true
+  | .ext => r != ECANCELED || o.aborts.contains r
+  | .gen => r == ETIMEDOUT || (r == ESTOPPED && stopCalled) || o.aborts.contains r
+  | .slp _ => r == 0 || r == ETIMEDOUT || (r == ESTOPPED && stopCalled) || o.aborts.contains r
+
 def step (j : J) (o : Obs) : J :=
   if j.err.isSome then j else
   if j.freeReturned then
@@ -112,7 +129,7 @@ def step (j : J) (o : Obs) : J :=
   | .setExpire e => { j with absExp := some e }
   | .skipArm => { j with skipArmed := true }
   | .subCall k =>
-    { j with ops := { kind := k, tsub := j.now, tmo := j.tmo, absExp := j.absExp } :: j.ops }
+    { j with ops := { kind := k, tsub := j.now, tmo := j.tmo, absExp := j.absExp, aborts := j.openCodes } :: j.ops }
   | .subRet v =>
     -- (a start refused after nng_aio_stop returned completes the operation with NNG_ESTOPPED)
     let j := { j with ops := updNewest j.ops fun o =>
@@ -145,7 +162,12 @@ def step (j : J) (o : Obs) : J :=
       else { j with ops := updNewest j.ops fun o => { o with decided := some rv } }
     | [] => j.fail "exactly-once: cancellation without an operation"
   | .abortCall rv =>
-    if rv = ETIMEDOUT then { j with ops := updNewest j.ops fun o => { o with userTimeout := true } } else j
+    { j with openAborts := j.openAborts + 1, openCodes := rv :: j.openCodes,
+             ops := updNewest j.ops fun o =>
+               { o with userTimeout := o.userTimeout || rv = ETIMEDOUT, aborts := rv :: o.aborts } }
+  | .abortRet =>
+    if j.openAborts ≤ 1 then { j with openAborts := 0, openCodes := [] } else { j with openAborts := j.openAborts - 1 }
+  | .auxBad => j.fail "exactly-once: an auxiliary aio on the same provider got a callback without an operation (or none)"
   | .closeCall => { j with stopCalled := true }
   | .cbBegin r =>
     match j.pendingOp with
@@ -161,6 +183,8 @@ def step (j : J) (o : Obs) : J :=
         j1.fail "timeout: NNG_ETIMEDOUT before the configured duration"
       else if r = 0 && o.decided.isNone && (match o.kind with | .slp ms => decide (j.now < o.tsub + ms) && o.tmo != .zero | _ => false) then
         j1.fail "timeout: sleep ended early"
+      else if o.decided.isNone && !unprovoked o r j.stopCalled then
+        j1.fail s!"cancel: code {r} reported but no cancel/abort/stop with that code was issued during the operation"
       else if j.stopReturned && r ≠ ESTOPPED && (match o.kind with | .direct _ => false | .ext => false | _ => true) then
         j1.fail "quiescence: callback with a result other than NNG_ESTOPPED after nng_aio_stop returned"
       else j1
